@@ -119,7 +119,15 @@ impl<'de, R: Reader<'de>> Deserializer<R> {
     {
         // errors made by visitors (serde-generated code) carry no position
         match de::Deserialize::deserialize(&mut *self) {
-            Ok(value) => Ok(value),
+            Ok(value) => {
+                // The DOM parser for a value at the start of the input and the lazy / ignoring
+                // targets do not look at the bytes inside strings: without this check a value
+                // read from `&[u8]` / `Bytes` through a hand-built deserializer or a stream
+                // could hand out `&str`s that are not UTF-8. (Positions that a target accepted
+                // on purpose — byte buffers, lossy mode — have already been moved past.)
+                self.parser.check_invalid_utf8(false)?;
+                Ok(value)
+            }
             Err(err) => Err(self.parser.fix_position(err)),
         }
     }
@@ -352,6 +360,8 @@ impl<'de, R: Reader<'de>> Deserializer<R> {
         V: de::Visitor<'de>,
     {
         let (raw, status) = self.parser.skip_one()?;
+        // the skipper does not look inside strings: the raw text is handed out as `&str`
+        self.parser.check_invalid_utf8(false)?;
         if status == ParseStatus::HasEscaped {
             visitor.visit_str(as_str(raw))
         } else {
@@ -363,7 +373,9 @@ impl<'de, R: Reader<'de>> Deserializer<R> {
     where
         V: de::Visitor<'de>,
     {
-        let val = ManuallyDrop::new(self.parser.get_owned_lazyvalue(true)?);
+        let val = self.parser.get_owned_lazyvalue(true)?;
+        self.parser.check_invalid_utf8(false)?;
+        let val = ManuallyDrop::new(val);
         // #Safety
         // the json is validate before parsing json, and we pass the document using visit_bytes
         // here.
@@ -425,6 +437,8 @@ impl<'de, R: Reader<'de>> Deserializer<R> {
                 self.parser.read.check_invalid_utf8();
             } else {
                 self.parser.read.eat(n);
+                // the in-place parser does not look at the bytes inside strings either
+                self.parser.check_invalid_utf8(false)?;
             }
         } else {
             let shared = unsafe {
